@@ -105,10 +105,22 @@ Vec2 SubPath::gradient(double u, const double *trafo) const {
         } break;
         case SubPathType::Parametric:
             if (path_gradient == NULL) {
-                const double u0 = u - step < 0 ? 0 : u - step;
-                const double u1 = u + step > 1 ? 1 : u + step;
-                grad =
-                    ((*path_function)(u1, func_data) - (*path_function)(u0, func_data)) / (u1 - u0);
+                // Second-order differences: central inside the section, one-sided at its ends
+                if (u - step < 0) {
+                    grad = (-3 * (*path_function)(u, func_data) +
+                            4 * (*path_function)(u + step, func_data) -
+                            (*path_function)(u + 2 * step, func_data)) /
+                           (2 * step);
+                } else if (u + step > 1) {
+                    grad = (3 * (*path_function)(u, func_data) -
+                            4 * (*path_function)(u - step, func_data) +
+                            (*path_function)(u - 2 * step, func_data)) /
+                           (2 * step);
+                } else {
+                    grad = ((*path_function)(u + step, func_data) -
+                            (*path_function)(u - step, func_data)) /
+                           (2 * step);
+                }
             } else {
                 grad = (*path_gradient)(u, grad_data);
             }
